@@ -182,10 +182,11 @@ Proof.
   destruct (0 <? d_bitsOffset s) eqn:E.
   - unfold getBitsValue. destruct (slice_from (d_bytes s) (d_byteOffset s)) as [src| | |]; cbn [sbind]; try discriminate.
     destruct (GetBitsValue src (d_bitsOffset s) (8 - d_bitsOffset s)) as [v| | |]; cbn [sbind]; try discriminate.
-    destruct (v =? 0); intros Heq; inversion Heq; subst. unfold bitCarry. cbn [d_bitsOffset].
+    destruct (v =? 0); intros Heq; [|apply (f_equal fst) in Heq; discriminate].
+    apply (f_equal snd) in Heq. cbn [snd] in Heq. subst s'. unfold bitCarry. cbn [d_bitsOffset].
     rewrite land7. rewrite u64_small by (unfold TWO64; lia).
     replace (d_bitsOffset s + (8 - d_bitsOffset s)) with 8 by lia. reflexivity.
-  - destruct (negb (d_bitsOffset s =? 0)) eqn:E2; intros Heq; inversion Heq; subst.
+  - destruct (negb (d_bitsOffset s =? 0)) eqn:E2; intros Heq; apply (f_equal snd) in Heq; cbn [snd] in Heq; subst s'.
     + unfold bitCarry. cbn [d_bitsOffset]. rewrite land7. lia.
     + lia.
 Qed.
@@ -198,7 +199,7 @@ Proof.
   intros Hs Hb HK. pose proof (parseAlignBits_good s Hs) as (Q & I' & B').
   destruct (parseAlignBits s) as [r s1] eqn:E. cbn [fst snd] in *.
   destruct r as [u|e|p|]; cbn [sbind quiet] in *; try contradiction.
-  - apply HK; [exact I'|congruence|]. eapply parseAlignBits_aligned; eauto.
+  - apply HK; [exact I'|congruence|]. exact (parseAlignBits_aligned s u s1 Hs E).
   - apply good3_ret; cbn [quiet]; auto. congruence.
 Qed.
 
@@ -278,7 +279,7 @@ Proof.
         destruct (idx_ok (d_bytes s1) (d_byteOffset s1)) as [b ->]; [lia|].
         destruct Hs1 as (A1 & A2 & A3 & A4). apply good3_ret; cbn [quiet]; auto.
         unfold dinv; cbn [d_bytes d_byteOffset d_bitsOffset]. rewrite u64_small by (unfold TWO64, MAXLEN in *; lia).
-        repeat split; try lia. assumption.
+        repeat split; try lia; try assumption.
       * apply sbind_good.
         -- destruct (getBitsValue_good s (go_bits (Z.of_N (bytelen_loop_dec 127 1 (u64z (vr - 1))))) Hs) as (Q & I' & B').
            unfold good3; repeat split; auto; apply I'.
